@@ -2330,7 +2330,12 @@ func (c *Compat) XInfoStream(ctx context.Context, key string) *XInfoStreamCmd {
 }
 
 func (c *Compat) XInfoStreamFull(ctx context.Context, key string, count int64) *XInfoStreamFullCmd {
-	cmd := c.client.B().XinfoStream().Key(key).Full().Count(count).Build()
+	var cmd rueidis.Completed
+	if count > 0 {
+		cmd = c.client.B().XinfoStream().Key(key).Full().Count(count).Build()
+	} else {
+		cmd = c.client.B().XinfoStream().Key(key).Full().Build()
+	}
 	resp := c.client.Do(ctx, cmd)
 	return newXInfoStreamFullCmd(resp)
 }
